@@ -294,6 +294,7 @@ func (x *Exec) checkPost(st *St, fr *Frame, v *Val, names map[string]*Val) {
 	}
 	oldEnv := &CEnv{X: x, Names: names, St: x.entry, Pkg: fi.Pkg}
 	env := &CEnv{X: x, Names: post, St: st, Pkg: fi.Pkg, Old: oldEnv}
+	x.applyGhostSets(st, c, env)
 	x.wrapCfail("postcondition of "+c.Key, func() {
 		for _, e := range c.Ensures {
 			x.emit(st, oblTemplate{kind: "post", label: e.Label, clause: e.Text, props: e.Props, pos: e.Pos}, nil, env.Formula(e.Expr))
